@@ -71,6 +71,11 @@ CLAIMED["C19"] = dict(
     text="Theorems (closed): set_sites_ok (the order-sensitive uses of Python sets in the sources are exactly the listed five; regenerated by T3 each run), transform_order_irrelevant / transform_pairs_order_irrelevant (the documented freedom: register listing order, always paired with the function), expand_include_modes_order + sortZ_perm_eq (include mode pairing independent of set order). Scripts with several overlapping-name parameters / registers per argument and includes on large unordered modes are loaded and serialised under several PYTHONHASHSEED values; observations and dump texts must be identical.",
     note="Trusted: Coq kernel; T3 (syntactic detection of set iteration: .free_symbols, .modes, set(...)-bound names used in for/list/zip/str); harness. 2^32 seeds cannot be enumerated; sympy's own canonical ordering is trusted to be hash-independent.", ref="5 C19")
 
+CLAIMED["C12"] = dict(
+    technique="Coq proof (process-wide tables as explicit state: the outcome of a load is independent of the tables it finds, for every history and every failure residue; the unrepaired algorithm is refuted) + translator obligation on the clearing sites + differential histories against pristine forked processes",
+    text="Theorems (closed): load_history_independent / load_state_independent (for every history of earlier loads and whatever a failed load leaves behind, the outcome equals the pristine one), load_step_denote (namely the script's denotation), history_independence_refuted (without the clearing at the start of parse the property is false; witness), clear_sites_ok (the clearing sites in listener.py are those the model assumes; regenerated each run). Histories of loads (valid, templates, failing at every stage, options mentioning names, includes) run in one process; every step must equal its outcome in a pristine forked process and results must share no mutable object.",
+    note="Trusted: Coq kernel; T3; harness; a forked child of a fresh interpreter counts as pristine. Threads are not modelled.", ref="5 C12")
+
 NOT_YET = {
 }
 
